@@ -227,6 +227,19 @@ func cliC03(scratch string, part *h.Partial) map[string]any {
 			cliCase{name: fmt.Sprintf("dep fails next to a busy sibling code=%d -x", code), files: map[string]string{"Taskfile.yml": tf}, args: []string{"-x", "root"}, wantExit: []int{code}, mustRun: []string{"F"}, mustNot: []string{"post"}, sig: "pos=dep-busy-sibling x=true"},
 			cliCase{name: fmt.Sprintf("dep fails next to a busy sibling code=%d", code), files: map[string]string{"Taskfile.yml": tf}, args: []string{"root"}, wantExit: []int{201}, mustRun: []string{"F"}, mustNot: []string{"post"}, sig: "pos=dep-busy-sibling x=false"})
 	}
+	// --parallel with TWO tasks that fail on their own (the first is held back by a deferred command until the second
+	// has failed too, so neither is merely cancelled): the status is still the task-run class / one of the two codes
+	for _, code := range codes {
+		other := code%200 + 20
+		hold := yamlq(`i=0; while [ ! -f second.failed ] && [ $i -lt 300000 ]; do i=$((i+1)); done`)
+		tf := hdr + "  first:\n    cmds:\n      - defer: " + hold + "\n      - " + yamlq(fmt.Sprintf(`printf 'F\n' >> "$VERIF_TRACE"; : > first.failing; exit %d`, code)) + "\n" +
+			"  second:\n    cmds:\n      - " + yamlq(fmt.Sprintf(`i=0; while [ ! -f first.failing ] && [ $i -lt 300000 ]; do i=$((i+1)); done; printf 'F2\n' >> "$VERIF_TRACE"; : > second.failed; exit %d`, other)) + "\n"
+		cases = append(cases,
+			cliCase{name: fmt.Sprintf("parallel two genuine failures code=%d", code), files: map[string]string{"Taskfile.yml": tf}, args: []string{"--parallel", "first", "second"},
+				wantExit: []int{201}, mustRun: []string{"F", "F2"}, sig: "pos=parallel-two-failures x=false"},
+			cliCase{name: fmt.Sprintf("parallel two genuine failures code=%d -x", code), files: map[string]string{"Taskfile.yml": tf}, args: []string{"--parallel", "-x", "first", "second"},
+				wantExit: []int{code, other}, mustRun: []string{"F", "F2"}, sig: "pos=parallel-two-failures x=true"})
+	}
 	// ignore_error suppresses exactly that command / that task's own commands and leaves the status alone
 	for _, code := range codes {
 		tf := hdr + "  root:\n    cmds:\n      - cmd: " + yamlq(fmt.Sprintf(`printf 'F\n' >> "$VERIF_TRACE"; exit %d`, code)) + "\n        ignore_error: true\n      - " + probe("post") + "\n"
@@ -498,6 +511,26 @@ func cliC13(scratch string, part *h.Partial) map[string]any {
 		cliCase{name: "requires: two roots, second lacks the variable", files: map[string]string{"Taskfile.yml": hdr + "  ok:\n    cmds:\n      - task: guarded\n        vars: {RQ: x}\n" + reqBody},
 			args: []string{"ok", "guarded"}, wantExit: []int{206}, mustRun: []string{"G-x"}, mustNot: []string{"G-"}, sig: "guard=requires pos=later-root-missing"},
 	)
+	// the guarded dep fails while a sibling dep (declared before or after it) still sits in a slow precondition: the
+	// status is the guard's, not the one of the sibling that is cancelled as a consequence
+	slowPre := "  slowpre:\n    preconditions:\n      - sh: " + yamlq(`: > pre.started; i=0; while [ ! -f never.flag ] && [ $i -lt 300000 ]; do i=$((i+1)); done`) + "\n    cmds:\n      - " + probe("S") + "\n"
+	// the guard is evaluated once the sibling is inside its precondition: dynamic variables are evaluated before the
+	// enum check, deps before the prompt (a missing required variable is noticed at once and cannot be delayed)
+	waitPre := `i=0; while [ ! -f pre.started ] && [ $i -lt 300000 ]; do i=$((i+1)); done`
+	delayed := "    vars:\n      WAITED:\n        sh: " + yamlq(waitPre) + "\n    deps: [waitpre]\n"
+	waitTask := "  waitpre:\n    cmds:\n      - " + yamlq(waitPre) + "\n"
+	for _, g := range guards {
+		if g.code <= 0 {
+			continue
+		}
+		dep := "      - task: guarded\n" + callVars(g)
+		for k, deps := range []string{"      - slowpre\n" + dep, dep + "      - slowpre\n"} {
+			tf := hdr + "  top:\n    deps:\n" + deps + "    cmds:\n      - " + probe("after") + "\n" + slowPre + waitTask +
+				strings.Replace(guardedBody(g), "  guarded:\n", "  guarded:\n"+delayed, 1)
+			cases = append(cases, cliCase{name: fmt.Sprintf("%s next to a sibling in a slow precondition (order %d)", g.name, k), files: map[string]string{"Taskfile.yml": tf},
+				args: []string{"top"}, wantExit: []int{g.code}, mustNot: []string{"G1", "G2", "after"}, sig: "guard=" + g.name + " pos=dep-next-to-slow-precondition"})
+		}
+	}
 	// --force skips preconditions of the named task (documented); it must not skip the other guards
 	for _, g := range guards {
 		if g.code <= 0 {
